@@ -335,7 +335,7 @@ func execCrash(in crashInput, scratch string) (Case, error) {
 			select {}
 		}
 	})
-	defer rosmar.VerifSetHook(nil)
+	defer parkLateTimers()
 	rosmar.VerifSetClock(func() uint64 { return 1 })
 	defer rosmar.VerifSetClock(nil)
 	rosmar.VerifResetHLC(0)
